@@ -204,3 +204,38 @@ Definition answers (fx : bool) (t : tree) : list N :=
     let es := visit fx [] t in
     join_sp (map (fun l => render_ans (query a l) (first_reg_in es l)) (labels_preorder t))
   end.
+
+(* ---------- reading a tree from the flat line format of the drivers ---------- *)
+(* preorder, three numbers per node: kind, label, number of children. Fuel = length of the input. *)
+Fixpoint parse_tree (fuel : nat) (ts : list N) {struct fuel} : option (tree * list N) :=
+  match fuel with
+  | O => None
+  | S f =>
+    match ts with
+    | k :: l :: n :: rest =>
+      match parse_kids f n rest with
+      | Some (cs, rest') => Some (Node k l cs, rest')
+      | None => None
+      end
+    | _ => None
+    end
+  end
+with parse_kids (fuel : nat) (n : N) (ts : list N) {struct fuel} : option (list tree * list N) :=
+  match fuel with
+  | O => None
+  | S f =>
+    if n =? 0 then Some ([], ts)
+    else match parse_tree f ts with
+         | Some (c, r) => match parse_kids f (N.pred n) r with
+                          | Some (cs, r') => Some (c :: cs, r')
+                          | None => None
+                          end
+         | None => None
+         end
+  end.
+
+Definition answers_flat (fx : bool) (ts : list N) : list N :=
+  match parse_tree (S (length ts)) ts with
+  | Some (t, []) => answers fx t
+  | _ => [66; 65; 68; 84; 82; 69; 69] (* BADTREE *)
+  end.
